@@ -427,9 +427,11 @@ def _tail_assign(stmts: list[ast.stmt], ret: str, budget: list[int]) -> list[ast
 
 def splice_tail_helpers(prog: Program, fn: FuncInfo, rounds: int = 2) -> tuple[FuncInfo, set[str]]:
     """Analysis view of `fn` in which calls `x = [await] self._helper(...)` / `return self._helper(...)`
-    of private same-class helpers that the engine normaliser leaves alone because they return from
-    several if/else arms are replaced by the helper's body (parameters substituted, own locals
-    renamed, every `return e` turned into `ret__helper = e`).  Returns (view, names spliced)."""
+    / `self._helper(...)` of private same-class statement helpers (also those that return from several
+    if/else arms, which the engine normaliser leaves alone) are replaced by the helper's body:
+    parameters substituted (a parameter the helper rebinds becomes a renamed local initialised with
+    the argument), own locals renamed, every `return e` turned into `ret__helper = e`.  Single-expression
+    helpers are left to the engine normaliser.  Returns (view, names spliced)."""
     import copy
 
     from ..engine import normalize as nz
@@ -450,7 +452,7 @@ def splice_tail_helpers(prog: Program, fn: FuncInfo, rounds: int = 2) -> tuple[F
                 if not isinstance(call, ast.Call):
                     continue
                 h = nz._helper_target(prog, fn, call, {})
-                if h is None or h is fn.node or h.name in nz.ANCHOR_NAMES or nz._simple_helper(h) is not None \
+                if h is None or h is fn.node or h.name in nz.ANCHOR_NAMES or nz._simple_helper(h) == "expr" \
                         or h.decorator_list or isinstance(h, ast.AsyncFunctionDef) != awaited:
                     continue
                 binds = nz._bind(h, call)
